@@ -14,7 +14,7 @@ Quiet(a) == a /\ UNCHANGED <<word, printed>>
 \* the simulator picks uniformly among the enabled steps; the steps of the environment that end things (cancel, a consumer
 \* stopping, Close) are offered only now and then, so that subscriptions live long enough to carry messages
 Rarely == RandomElement(1..6) = 1 \/ Len(word) < 0    \* (mentions a variable: evaluated anew at every step)
-Finished == /\ cl = "done"
+Finished == /\ \A c \in Closers : cl[c] = "done"
             /\ \A s \in Subs : sub[s] \in {"returned", "failed"} /\ pump[s] \in {"off", "done"}
 GInit == Init /\ word = << >> /\ printed = FALSE
 GNext == \/ \E s \in Subs :
@@ -27,12 +27,13 @@ GNext == \/ \E s \in Subs :
               \/ Step(CtxCancel(s) /\ Rarely, "cancel:" \o s)
               \/ Step(StopReading(s) /\ sub[s] # "none" /\ Rarely, "stopread:" \o s)
               \/ Quiet(SubLock(s) \/ SubUnlock(s) \/ SubGo(s) \/ InnerEnd(s) \/ PumpSeesClosed(s) \/ PumpDone(s))
-         \/ Step(ClStart /\ (\E s \in Subs : sub[s] # "none") /\ Rarely, "close")      \* (a Subscribe after Close began is left to the second subscription)
-         \/ Step(ClInnerStart, "innerstart")
-         \/ Step(ClInnerDone, "innerclosed")
-         \/ Step(ClSignal, "signalled")
-         \/ Step(ClWait, "waited")
-         \/ Quiet(ClLock \/ ClUnlock)
+         \/ \E c \in Closers :
+              \/ Step(ClStart(c) /\ (\E s \in Subs : sub[s] # "none") /\ Rarely, "close")      \* (a Subscribe after Close began is left to the second subscription)
+              \/ Step(ClInnerStart(c), "innerstart")
+              \/ Step(ClInnerDone(c), "innerclosed")
+              \/ Step(ClSignal(c), "signalled")
+              \/ Step(ClWait(c), "waited")
+              \/ Quiet(ClLock(c) \/ ClUnlock(c))
          \/ (~Finished /\ UNCHANGED gvars)           \* (idling: the rarely offered steps may all be withheld at the moment)
          \/ (Finished /\ ~printed /\ printed' = TRUE /\ PrintT("WORD " \o ToJson(word)) /\ UNCHANGED <<vars, word>>)
 GSpec == GInit /\ [][GNext]_gvars
